@@ -1,5 +1,10 @@
 package main
 
+import (
+	"fmt"
+	"strings"
+)
+
 // Property registrations for the stream world: C02 and C03.
 
 func streamWorkload(name string, count map[string]int, opts streamGenOpts) *Workload {
@@ -82,6 +87,72 @@ func sweepWorkload(count map[string]int) *Workload {
 	}
 }
 
+// hugeWorkload: one value of one to three megabytes (an object whose "pad"
+// member is a long string, so that the rules still run once for it) in front
+// of, between or behind ordinary values; delivered at once, in large and in
+// small chunks, with and without a fault behind it.
+func hugeWorkload(count map[string]int) *Workload {
+	return &Workload{
+		Name:  "huge-values",
+		Count: func(tier string) int { return count[tier] },
+		Gen: func(i int, t *Tape, tier string) any {
+			c := genStreamCase(t, streamGenOpts{mode: "c03", maxFiles: 1, maxVals: 4, selectors: false, sigProb: 10})
+			if len(c.Files) == 0 {
+				return c
+			}
+			size := 1100000 + t.Draw(3)*900000
+			pad := strings.Repeat("x", size)
+			huge := []byte(fmt.Sprintf("{\"id\": 424242, \"t\": true, \"pad\": \"%s\"}", pad))
+			ref := ScanStream(c.Files[0].Data)
+			pos := 0
+			if n := len(ref.Values); n > 0 {
+				k := t.Draw(n + 1)
+				if k == n {
+					pos = ref.Values[n-1].End
+				} else {
+					pos = ref.Values[k].Start
+				}
+			}
+			d := c.Files[0].Data
+			c.Files[0].Data = append(append(append(append(QBytes{}, d[:pos]...), huge...), '\n'), d[pos:]...)
+			n := len(c.Files[0].Data)
+			switch t.Weighted(3, 2, 2, 2) {
+			case 0:
+				c.Files[0].Sched = nil
+			case 1: // large chunks that do not line up with the value
+				var s []int
+				for left := n; left > 0; {
+					k := 60000 + t.Draw(70000)
+					s = append(s, k)
+					left -= k
+				}
+				c.Files[0].Sched = s
+			case 2: // the huge value exactly, then the rest byte by byte
+				c.Files[0].Sched = []int{pos + len(huge)}
+				for k := 0; k < 64; k++ {
+					c.Files[0].Sched = append(c.Files[0].Sched, 1)
+				}
+			default: // 4 KiB chunks
+				var s []int
+				for left := n; left > 0; left -= 4096 {
+					s = append(s, 4096)
+				}
+				c.Files[0].Sched = s
+			}
+			if t.Chance(1, 3) {
+				// a fault somewhere behind the huge value
+				off := pos + len(huge) + t.Draw(n-pos-len(huge)+1)
+				c.Fault = &Fault{Kind: []string{"TRUNC", "EIO"}[t.Draw(2)], File: 0, Off: off}
+			}
+			return c
+		},
+		Run:         func(c any, keep bool) Outcome { return runStreamCase(c.(*StreamCase), keep) },
+		New:         func() any { return &StreamCase{} },
+		NoRecheck:   true,
+		ShrinkEvals: 80,
+	}
+}
+
 var streamComponents = map[string][]string{
 	"real":      {"jqawk lexer, parser, evaluator, prototypes, runtime (lang.EvalProgram)", "encoding/json Decoder", "Go runtime"},
 	"simulated": {"io.Reader of every input file (SimReader: chunking, zero reads, EOF placement, I/O error, truncation, corruption, stray text)", "stdout io.Writer (SimWriter with global event numbers)"},
@@ -120,6 +191,7 @@ func registerStream() {
 			streamWorkload("chunking", map[string]int{"quick": 60000, "thorough": 3000000}, streamGenOpts{mode: "c03", maxFiles: 3, maxVals: 6, selectors: true, sigProb: 20, bigProb: 4}),
 			streamWorkload("faults", map[string]int{"quick": 90000, "thorough": 5000000}, streamGenOpts{mode: "c03", maxFiles: 3, maxVals: 5, selectors: true, faults: allFaults, faultProb: 100, sigProb: 15, bigProb: 3}),
 			sweepWorkload(map[string]int{"quick": 150, "thorough": 6000}),
+			hugeWorkload(map[string]int{"quick": 48, "thorough": 3000}),
 		},
 	})
 }
